@@ -588,7 +588,10 @@ class StatsAdapter(_Base):
       if st["args"].get("raw", "none") != "none":
         sig["raw_listeners"] = st["args"]["raw"]
       if self.cur_since:
-        sig["interleaved_with_split"] = ",".join(self.cur_since)
+        # parts of a split reply of a NOT multipart-capable type (vendor / unknown / desc / aggregate + MORE)
+        # arrived while this request's reply was being assembled: one class, whatever else was going on
+        sig["interleaved_with"] = "split_reply_of_non_multipart_type"
+        sig.pop("raw_listeners", None)
     else:
       sig["kind"] = st["args"]["kind"]
     if not isinstance(obs, dict) or "con" not in obs:
